@@ -59,39 +59,42 @@ def make_v2(chords, keys, red=1, minidle=5, lkey=None):
 
 
 def family(tier):
-    """(name, desc, params, mc options)"""
-    F = []
-    v1 = [
-        # sub-chord + superset, every single defined; (a c), (b c) undefined -> decomposition
-        ("v1_sub_T3", make_v1(3, "abc", [("a", "b"), ("a", "b", "c")]), {"qmax": 2}),
-        # a non-chord key interrupts; T = 2
-        ("v1_plain_T2", make_v1(2, "ab", [("a", "b")], plain="d"), {"qmax": 2}),
-        # overlapping chords, an undefined single (b) and an undefined superset (a b c)
-        ("v1_ovl_T2", make_v1(2, "ac", [("a", "b"), ("b", "c")]), {"qmax": 2}),
-        ("v1_pair_T3", make_v1(3, "ab", [("a", "b")]), {"qmax": 3}),
-    ]
-    v2 = [
-        ("v2_pair_T2", make_v2([(("a", "b"), 2, "all", [], None)], "abc"), {"qmax": 2}),
-        ("v2_first_T2", make_v2([(("a", "b"), 2, "first", [], None)], "ab"), {"qmax": 2}),
-        ("v2_uni_T2", make_v2([(("a", "b"), 2, "all", [], "+r")], "ab"), {"qmax": 2}),
-        ("v2_sub_T2", make_v2([(("a", "b"), 2, "all", [], None), (("a", "b", "c"), 2, "first", [], None)], "abc"), {"qmax": 2}),
-        ("v2_layer_T2", make_v2([(("a", "b"), 2, "all", [1], None)], "ab", lkey="d"), {"qmax": 2}),
-    ]
-    F = v1 + v2
-    if tier != "quick":
-        F += [
-            ("v1_sub_T2", make_v1(2, "abc", [("a", "b"), ("a", "b", "c")]), {"qmax": 3}),
-            ("v1_plain_T3", make_v1(3, "ab", [("a", "b")], plain="d"), {"qmax": 3}),
-            ("v1_ovl_T3", make_v1(3, "ac", [("a", "b"), ("b", "c")]), {"qmax": 3}),
-            ("v1_nosingle_T2", make_v1(2, "", [("a", "b"), ("a", "b", "c")]), {"qmax": 3}),
-            ("v1_red5_T3", make_v1(3, "ab", [("a", "b")], plain="d", red=5), {"qmax": 3}),
-            ("v2_pair_T3", make_v2([(("a", "b"), 3, "all", [], None)], "abc"), {"qmax": 3}),
-            ("v2_sub_T3", make_v2([(("a", "b"), 3, "all", [], None), (("a", "b", "c"), 3, "first", [], None)], "abc"), {"qmax": 3}),
-            ("v2_ovl_T2", make_v2([(("a", "b"), 2, "all", [], None), (("b", "c"), 2, "first", [], None)], "abc"), {"qmax": 3}),
-            ("v2_super_T2", make_v2([(("a", "b"), 2, "all", [], None), (("a", "b", "c", "d"), 2, "all", [], None)], "abcd"), {"qmax": 2}),
-            ("v2_layer_T3", make_v2([(("a", "b"), 3, "first", [1], None), (("a", "c"), 3, "all", [], None)], "abc", lkey="d"), {"qmax": 2}),
+    """(name, (desc, params), mc options).  `depth`: only schedules of at most that many steps (the full graph of the
+    chords-v2 tables with a third key is in the millions because of the known findings); without it: the full graph."""
+    v1_pair = lambda T: make_v1(T, "ab", [("a", "b")])
+    v1_plain = lambda T, red=1: make_v1(T, "ab", [("a", "b")], plain="d", red=red)
+    v1_sub = lambda T: make_v1(T, "abc", [("a", "b"), ("a", "b", "c")])          # sub-chord + superset; (a c), (b c) undefined
+    v1_ovl = lambda T: make_v1(T, "ac", [("a", "b"), ("b", "c")])                # overlapping, (b) and (a b c) undefined
+    v2_first = lambda T: make_v2([(("a", "b"), T, "first", [], None)], "ab")
+    v2_uni = lambda T: make_v2([(("a", "b"), T, "all", [], "+r")], "ab")
+    v2_pair = lambda T: make_v2([(("a", "b"), T, "all", [], None)], "abc")        # c: a key without chords
+    v2_sub = lambda T: make_v2([(("a", "b"), T, "all", [], None), (("a", "b", "c"), T, "first", [], None)], "abc")
+    v2_layer = lambda T: make_v2([(("a", "b"), T, "all", [1], None)], "ab", lkey="d")
+    if tier == "quick":
+        return [
+            ("v1_pair_T3", v1_pair(3), {"qmax": 3}),
+            ("v1_plain_T2", v1_plain(2), {"qmax": 2}),
+            ("v2_first_T2", v2_first(2), {"qmax": 2}),
+            ("v2_uni_T2", v2_uni(2), {"qmax": 2, "depth": 30}),
+            ("v2_pair_T2", v2_pair(2), {"qmax": 2, "depth": 16}),
+            ("v2_sub_T2", v2_sub(2), {"qmax": 2, "depth": 17}),
+            ("v2_layer_T2", v2_layer(2), {"qmax": 2, "depth": 16}),
         ]
-    return F
+    return [
+        ("v1_pair_T3", v1_pair(3), {"qmax": 3}),
+        ("v1_pair_T2", v1_pair(2), {"qmax": 3}),
+        ("v1_plain_T2", v1_plain(2), {"qmax": 2}),
+        ("v1_plain_T3", v1_plain(3), {"qmax": 2}),
+        ("v1_sub_T3", v1_sub(3), {"qmax": 2}),
+        ("v1_ovl_T2", v1_ovl(2), {"qmax": 2, "depth": 30}),
+        ("v1_red5_T3", v1_plain(3, 5), {"qmax": 2, "depth": 40}),
+        ("v2_first_T2", v2_first(2), {"qmax": 3}),
+        ("v2_first_T3", v2_first(3), {"qmax": 2}),
+        ("v2_uni_T2", v2_uni(2), {"qmax": 2}),
+        ("v2_pair_T2", v2_pair(2), {"qmax": 2, "depth": 22}),
+        ("v2_sub_T2", v2_sub(2), {"qmax": 2, "depth": 22}),
+        ("v2_layer_T2", v2_layer(2), {"qmax": 2, "depth": 21}),
+    ]
 
 
 def mc_instance(name, desc, params, opts):
@@ -116,7 +119,7 @@ def mc_instance(name, desc, params, opts):
             "              /\\ ~\\E j \\in DOMAIN K.L.chv2.q : ~K.L.chv2.q[j].p /\\ K.L.chv2.q[j].y \\in K.L.chv2.ach[i].ks\n"
             "LeakProbe == ~Chv2Leak \\/ PrintT(<<\"MONERR\", ToJson([h |-> hist, err |-> \"L1: an active chord can no longer be released\"])>>)\n"
             + inst["extra_defs"][:-1] + " /\\ Len(K.L.chv2.ach) <= 3 /\\ ~Chv2Leak)")
-        inst["invariants"] = ["StutterProbe", "LeakProbe"]
+        inst["invariants"] = ["LeakProbe"]
     return inst, kbd, keys
 
 
@@ -191,14 +194,27 @@ def run(tier, seed):
     only = os.environ.get("C09_ONLY")
     depth_override = os.environ.get("C09_DEPTH")
     jobs_random, witness_jobs = [], []
+    build_harness()
+    cfgdesc.keytable()
+    todo = []
     for name, (desc, params), opts in family(tier):
         if only and only not in name:
             continue
         if depth_override:
             opts = dict(opts, depth=int(depth_override))
-        inst, kbd, keys = mc_instance(name, desc, params, opts)
-        r = mc.check_instance(inst, wd, workers=6, timeout=1500)
+        todo.append((name, desc, params, opts) + mc_instance(name, desc, params, opts))
+
+    def one(t):
+        name, desc, params, opts, inst, kbd, keys = t
+        # one work directory per instance: two TLC runs go on at a time
+        return mc.check_instance(inst, workdir("c09/" + name), workers=6, timeout=1700)
+
+    import concurrent.futures
+    with concurrent.futures.ThreadPoolExecutor(max_workers=2) as ex:
+        results = list(ex.map(one, todo))
+    for (name, desc, params, opts, inst, kbd, keys), r in zip(todo, results):
         res.add_instance(r)
+        res.instances[-1]["depth_bound"] = opts.get("depth")
         log("[c09] %s: %s states, %s edges, drift %s, monerr %s, tlc %ss, wall %ss" % (
             name, r["states"], r.get("edges"), r.get("drift"), r.get("n_monerr"), r["tlc_wall_s"], r["wall_s"]))
         if len(res.samples) < 4:
@@ -238,9 +254,17 @@ def run(tier, seed):
             res.samples.append({"random_history": jobs[0]["scripts"][0][:30], "cfg": jobs[0]["cfg"]})
     return flow.finish(
         res, "model_checking",
-        "TLC explores L1 (Layout/ChordsV2/Kanata) || P_C09 for every physically consistent schedule (every press order, "
-        "every gap, every release order, <= qmax pending events) per chord-table instance; every model transition is "
-        "replayed on the real code; model-level witnesses and random schedules (gaps around the timeout and the "
-        "min-idle cool-down) are recorded from the code and validated by TLC against P_C09.",
-        assumptions=["deterministic stepper", "chord / key actions are distinct otherwise-unused keys or a unicode character",
-                     "P_C09 sharp-zone rules calibrated per DESIGN Appendix A"])
+        "TLC explores L1 (Layout.tla / ChordsV2.tla / Kanata.tla) || P_C09 per chord-table instance for every physically "
+        "consistent schedule - every press order, every tick gap, every release order, <= qmax pending events - either "
+        "over the full graph (instances without depth_bound: histories of any length) or for all schedules of at most "
+        "depth_bound steps; every model transition is replayed on the real code (drift 0 = the exhaustive result "
+        "transfers); for tables over 3-5 participating keys TLC enumerates Sched_C09 (every subset, every press "
+        "permutation x gaps below/at/above the timeout x every release permutation, + one foreign key at every position) "
+        "and the schedules are run on the real code; model-level witnesses, the enumerated schedules and random "
+        "schedules (gaps around the timeout and the min-idle cool-down) are recorded from the code and validated by TLC "
+        "against P_C09.",
+        assumptions=["deterministic stepper", "chord / key actions are distinct otherwise-unused keys and/or a unicode character",
+                     "P_C09 sharp-zone rules calibrated per DESIGN Appendix A (v1: last arrival t0+T-1, resolution on tick t0+T; "
+                     "v2: arrivals up to t0+T-1 belong to the set, t0+T is soft, later ones do not)",
+                     "a re-activation of a chord while its output key is still down is invisible at the OS level: presses that "
+                     "may have been consumed that way are not claimed (P_C09 `hid`)"])
